@@ -15,7 +15,7 @@ def run(tier, seed):
     wd = core.workdir("C09")
     rng = random.Random(seed)
     try:
-        dims16 = [(1, 1), (2, 1), (1, 2), (3, 1), (2, 2)] if tier == "quick" else [(1, 1), (2, 1), (1, 2), (3, 1), (2, 2), (1, 3), (4, 1), (1, 4)]
+        dims16 = [(1, 1), (2, 1), (1, 2), (3, 1), (2, 2), (1, 3)] if tier == "quick" else [(1, 1), (2, 1), (1, 2), (3, 1), (2, 2), (1, 3), (4, 1), (1, 4)]
         c16, s16 = codec.gen_rle16(wd, dims16)
         if tier == "thorough":
             c16b, s16b = codec.gen_rle16(wd, [(2, 1), (1, 2), (3, 1)], palette="{4660, 63519}", masks="{165, 255, 0}", maximg=2)
